@@ -13,7 +13,7 @@ FOCUS_SETS = [
     ['word', 'inline', 'display', 'mathtext', 'ref', 'cite', 'citeopt', 'footnote', 'usermac'],
     ['word', 'verb', 'verbatim', 'comment', 'skip', 'ltskip', 'label', 'vanish', 'unk', 'atom', 'accent'],
     ['word', 'footnote', 'caption', 'footcite', 'textcolor', 'unkarg', 'unkenv', 'figure', 'tabular', 'usermac2'],
-    ['word', 'gls', 'cref', 'usermacopt', 'usermacoptonly', 'latexname', 'textbackslash', 'ref', 'cite', 'theorem', 'proof', 'enumerate'],
+    ['word', 'gls', 'glsentry', 'cref', 'usermacopt', 'usermacoptonly', 'latexname', 'textbackslash', 'ref', 'cite', 'theorem', 'proof', 'enumerate'],
     ['word', 'tikz', 'lstlisting', 'removed_ext', 'skip', 'comment', 'minipage', 'par', 'newline', 'quad', 'hspace'],
     ['word', 'atom', 'accent', 'group', 'emph', 'unkarg2', 'href', 'texorpdf', 'framebox', 'ltadd', 'ltalter'],
 ]
